@@ -62,7 +62,8 @@ def run(fx, chk, tier):
     c08 = importlib.import_module("c08")
     s8 = silent("C08")
     c08.run(fx, s8, tier)
-    take(s8, ["R-CHAIN"], "T1", lambda o: o["key"].startswith(("<R>::read_header|", "<R>::read_fragment_header|")) or ".floor" in o["rule"])
+    # (the hand-offs of the two open functions, wherever their loop bodies live: every R-CHAIN instance sited in reader.rs)
+    take(s8, ["R-CHAIN"], "T1", lambda o: o["key"].startswith(("<R>::read_header|", "<R>::read_fragment_header|")) or str(o.get("site") or "").startswith("src/reader.rs") or ".floor" in o["rule"])
     # T2
     c10 = importlib.import_module("c10")
     s10 = silent("C10")
